@@ -478,6 +478,9 @@ func (c *Client) Delete(ctx context.Context, o client.Object, opts ...client.Del
 	if out == sim.ErrAfter {
 		return replyLost(gvk, "delete")
 	}
+	if c.Sim != nil {
+		c.Sim.Warm(ctx)
+	}
 	return nil
 }
 
